@@ -4,7 +4,15 @@ import os
 
 import tables
 
-STYLES = ['unsrt', 'plain']
+STYLES = ['unsrt', 'plain', 'tiny']
+
+
+def style_path(name):
+    """tests/data/<name>.bst of the tree under test; `tiny` is the check's own style (corpus/C18/tiny.bst)"""
+    import compat
+    if name == 'tiny':
+        return os.path.join(compat.VERIF, 'corpus', 'C18', 'tiny.bst')
+    return os.path.join(compat.REPO, 'tests', 'data', name + '.bst')
 
 
 @tables.generator
@@ -12,10 +20,10 @@ def gen_style_macros():
     import compat
     from pybtex.bibtex import bst
     body = 'namespace Pybtex.Gen\n\n'
-    body += '/-- per test style (tests/data/<name>.bst): the MACRO commands in file order (name, value). -/\n'
+    body += '/-- per test style (tests/data/<name>.bst; tiny = corpus/C18/tiny.bst): the MACRO commands in file order (name, value). -/\n'
     rows = []
     for name in STYLES:
-        path = os.path.join(compat.REPO, 'tests', 'data', name + '.bst')
+        path = style_path(name)
         macros = []
         for cmd in bst.parse_file(path):
             if cmd[0].lower() == 'macro':
